@@ -766,7 +766,7 @@ class PowerLawSD(CustomSD):
 
         # use parent class for all the rest.
         j_function = lambda w: 2.0 * self.alpha * w ** self.zeta \
-                               * self.cutoff ** (1 - zeta)
+                               * self.cutoff ** (1 - self.zeta)
 
         super().__init__(j_function,
                          cutoff=cutoff,
